@@ -89,6 +89,13 @@ def needs_quoting(string: str, allow_reserved: bool, allow_num: bool) -> bool:
 
     r = _re_ident_or_num if allow_num else _re_ident
     isalnum = r.fullmatch(string)
+    if isalnum and not (
+        string[0] == '_' or string[0].isalpha() or string[0].isdecimal()
+    ):
+        # [^\W\d] also matches numeric characters that are not decimal
+        # digits (e.g. superscript two), which the lexer does not accept
+        # as the first character of an identifier.
+        isalnum = None
 
     string = string.lower()
 
